@@ -13,6 +13,10 @@ func builtinNewError(obj *object, argumentList []Value) Value {
 }
 
 func builtinErrorToString(call FunctionCall) Value {
+	// 15.11.4.4 step 2: a TypeError unless the this value is an object.
+	if !call.This.IsObject() {
+		panic(call.runtime.panicTypeError("Error.prototype.toString called on non-object"))
+	}
 	thisObject := call.thisObject()
 	if thisObject == nil {
 		panic(call.runtime.panicTypeError("Error.toString is nil"))
